@@ -63,6 +63,9 @@ static rc::Gen<Scenario> c15_gen()
 		{ Op o; o.kind = CHANGE; o.conn = 0; o.a = 0; o.b = 2; sc.ops.push_back(o); }
 		{ Op o; o.kind = UNFETCH; o.conn = 1; o.a = 4; sc.ops.push_back(o); }
 		{ Op o; o.kind = REMOVE; o.conn = 0; o.a = 0; sc.ops.push_back(o); }
+		// the scenario ends with live elements whose last change may have been the faulted request: the census (fw/world.hpp) looks at them
+		{ Op o; o.kind = ADD; o.conn = 0; o.a = 0; o.b = 4; sc.ops.push_back(o); }
+		{ Op o; o.kind = CHANGE; o.conn = 0; o.a = 0; o.b = 9; sc.ops.push_back(o); }
 		sc.end = end;
 		sc.fail_allocs = doubles; // carried in the scenario: seeds of the random double-fault runs
 		return sc;
@@ -90,6 +93,7 @@ int main(int argc, char **argv)
 	c.opt.replica_check = false;
 	c.opt.ws_check = false;
 	c.opt.accounting_check = true;
+	c.opt.census = true;
 	c.noshrink = true;
 	c.nontrivial = [](const Verdict &vd, const Scenario &) { auto it = vd.stat.find("allocs_after_baseline"); return it != vd.stat.end() && it->second >= 20; };
 	c.extra = [](Campaign &cc, const Scenario &base0, const CaseResult &r0) {
